@@ -203,6 +203,9 @@ def run(ck):
                       "(the pipeline's lock covers the pipeline's own objects, not what all pipelines share)")
     from rules.oth import shared_static_state
     shared_static_state(ck, F, "C02-O9", "its own mutex")
+    ck.rule("C02-O10", "handler code registers no deferred callback (QObject::connect, QTimer, QtConcurrent, std::thread, QMetaObject::invokeMethod): everything a handler does to its state happens inside the call the pipeline's lock covers")
+    from rules.oth import no_deferred_callbacks
+    no_deferred_callbacks(ck, F, "C02-O10", allowed=("OwnThreadHandler::process",))
     # a message that a sink hands on through a queued signal (SignalSink with a receiver in another thread) needs LogMessage to be a
     # registered meta-type whenever a logger exists - in synchronous mode the emitting thread is whichever thread logs
     ck.rule("C02-O8", "qRegisterMetaType<LogMessage> runs on every path of a constructor every logger goes through (OwnThreadHandler, SignalSink), not only when asynchronous mode is switched on")
